@@ -1,25 +1,29 @@
-(* ReportNeverHidden.v - "a failed step is never hidden", down to the bytes robsd-report prints, and
-   the one way in which it IS hidden: no report at all.
+(* ReportNeverHidden.v - "a failed step is never hidden", down to the bytes robsd-report prints.  All theorems are
+   about the source with every repair in place ([fixed_sw]); the earlier forms have their witnesses.
 
      failure_has_section     every failing row of a report that is produced has its section, at its place,
                              with the specified body
      failed_step_is_printed  ... and the sanitized text of that section is part of standard output
      status_is_printed       the Subject: and Status: lines carry [report_status]
-     report_main_silent      when [spec_error] holds robsd-report exits 1 and prints NOTHING, whatever
-                             failed; witnesses: the failing step's own log is unreadable; ANOTHER step's
-                             file is unreadable (packages.diff of a passing dpb step in robsd-ports mode)
-     ports_cvs_logs_missing_holds_now   D18 (cvs logs never written) no longer is such a case
+     never_hidden            inside the property's quantifier ([inside]: lock file there, nothing unreadable,
+                             packages.diff written by a passing dpb, regress rows carry log names) a report IS
+                             produced and has those sections - whichever logs exist or do not exist
+     error_only_outside      the named ways to get no report at all; report_main_silent: then exit 1, nothing printed
+     missing_log_refuted     D24: before the repair a row whose log does not exist (invocation killed between the
+                             in-flight record and tee's open) silenced the whole report
+     regress_cvs_refuted     D25: before the regress rows of the cvs table the failed cvs step's section was empty
+     ports_cvs_logs_missing_*  D18
      never_hidden_or_silent  the dichotomy
      model_passes_all_oracles  every oracle the harness applies to the implementation accepts the model *)
 From Robsd Require Import Report.ReportSpec Report.ReportProofs.
 Local Open Scope N_scope.
 
-Lemma report_fields m cfg rows fs rep :
-  report_struct_rows m cfg rows fs = ROk rep ->
+Lemma report_fields w m cfg rows fs rep :
+  report_struct_rows_with w m cfg rows fs = ROk rep ->
   rp_status rep = report_status m rows /\ rp_mode rep = m /\ rp_subject rep = subject_of m cfg fs.
 Proof.
-  unfold report_struct_rows. destruct (negb (c_running cfg)); [discriminate|].
-  destruct (f_comment fs); try discriminate; destruct (steps_loop m cfg fs rows); try discriminate;
+  unfold report_struct_rows_with, report_struct_rows_gen. destruct (negb (c_running cfg)); [discriminate|].
+  destruct (f_comment fs); try discriminate; destruct (steps_loop_gen w _ m cfg fs rows); try discriminate;
     intros H; injection H as <-; repeat split.
 Qed.
 
@@ -31,24 +35,20 @@ Qed.
 Lemma skipped_not_shown m cfg fs r : r_skip r = 1%Z -> spec_shown m cfg fs r = false.
 Proof. intros H. unfold spec_shown, nonskipped. now rewrite H. Qed.
 
-(* the body clause for the source as it is (both excerpt prints copy the bytes); stops compiling when
-   the translator finds a %s conversion again *)
-Lemma step_log_is_spec m cfg fs r : step_log m cfg fs r = spec_body m cfg fs r.
-Proof. exact (body_if_copied m cfg fs r eq_refl eq_refl). Qed.
-
 Theorem failure_has_section m cfg a r b fs rep :
-  report_struct_rows m cfg (a ++ r :: b) fs = ROk rep -> failing r = true ->
+  cvs_guard m fs ->
+  report_struct_rows_with fixed_sw m cfg (a ++ r :: b) fs = ROk rep -> failing r = true ->
   exists bd,
     spec_body m cfg fs r = ROk bd /\
     rp_sections rep =
-      map (fun x => section_of x (body_or_nil m cfg fs x)) (filter (spec_shown m cfg fs) a) ++
+      map (fun x => section_of x (body_or_nil_with fixed_sw m cfg fs x)) (filter (spec_shown m cfg fs) a) ++
       section_of r bd ::
-      map (fun x => section_of x (body_or_nil m cfg fs x)) (filter (spec_shown m cfg fs) b).
+      map (fun x => section_of x (body_or_nil_with fixed_sw m cfg fs x)) (filter (spec_shown m cfg fs) b).
 Proof.
-  intros H Hf. destruct (sections_exact _ _ _ _ _ H) as [Hs Hb].
+  intros Hg H Hf. destruct (sections_exact _ _ _ _ _ Hg H) as [Hs Hb].
   pose proof (failing_shown m cfg fs r Hf) as Hsh.
-  exists (body_or_nil m cfg fs r). split.
-  - rewrite <- step_log_is_spec. apply Hb. apply filter_In. split; [apply in_or_app; right; now left|exact Hsh].
+  exists (body_or_nil_with fixed_sw m cfg fs r). split.
+  - rewrite <- (step_log_fixed m cfg fs r Hg). apply Hb. apply filter_In. split; [apply in_or_app; right; now left|exact Hsh].
   - rewrite Hs, filter_app. cbn [filter]. rewrite Hsh, map_app. reflexivity.
 Qed.
 
@@ -66,19 +66,20 @@ Proof.
   eexists _, _. rewrite <- sanitize_spec. rewrite <- app_assoc. reflexivity.
 Qed.
 
-Lemma report_main_ok m cfg host content fs out :
-  report_main m cfg host (Some content) fs = (0, out) ->
+Lemma report_main_ok w m cfg host content fs out :
+  report_main_with w m cfg host (Some content) fs = (0, out) ->
   exists rows rep, parse_file content = Some rows /\
-    report_struct_rows m cfg (map view rows) fs = ROk rep /\ out = render host rep.
+    report_struct_rows_with w m cfg (map view rows) fs = ROk rep /\ out = render host rep.
 Proof.
-  unfold report_main, report_struct. destruct (parse_file content) as [rows|]; [|discriminate].
-  destruct (report_struct_rows m cfg (map view rows) fs) as [rep|] eqn:E; [|discriminate].
+  unfold report_main_with, report_struct_with. destruct (parse_file content) as [rows|]; [|discriminate].
+  destruct (report_struct_rows_with w m cfg (map view rows) fs) as [rep|] eqn:E; [|discriminate].
   intros H. injection H as <-. exists rows, rep. repeat split; auto.
   destruct (render_sane host rep) as [_ [_ Hc]]. exact Hc.
 Qed.
 
 Theorem failed_step_is_printed m cfg host content fs out rows a r b :
-  report_main m cfg host (Some content) fs = (0, out) ->
+  cvs_guard m fs ->
+  report_main_with fixed_sw m cfg host (Some content) fs = (0, out) ->
   parse_file content = Some rows -> map view rows = a ++ r :: b -> failing r = true ->
   exists bd pre post,
     spec_body m cfg fs r = ROk bd /\
@@ -87,9 +88,9 @@ Theorem failed_step_is_printed m cfg host content fs out rows a r b :
       [10; 62; 32] ++ r_name r ++ [10] ++ s_exit_ ++ render_Z (cast_int (r_exit r)) ++ [10] ++
       s_duration_ ++ step_duration r ++ [10] ++ s_log_ ++ r_log r ++ [10] ++ bd.
 Proof.
-  intros H Hp Hr Hf. destruct (report_main_ok _ _ _ _ _ _ H) as [rows' [rep [Hp' [Hs ->]]]].
+  intros Hg H Hp Hr Hf. destruct (report_main_ok _ _ _ _ _ _ _ H) as [rows' [rep [Hp' [Hs ->]]]].
   rewrite Hp in Hp'. injection Hp' as <-. rewrite Hr in Hs.
-  destruct (failure_has_section _ _ _ _ _ _ _ Hs Hf) as [bd [Hb Hsec]].
+  destruct (failure_has_section _ _ _ _ _ _ _ Hg Hs Hf) as [bd [Hb Hsec]].
   destruct (render_with_section host rep _ _ _ Hsec) as [pre [post E]].
   exists bd, pre, post. repeat split; auto.
 Qed.
@@ -102,87 +103,255 @@ Definition subject_text (host : bytes) (rep : Report) : bytes :=
   | SubjHost p => host ++ [58] ++ p ++ rp_status rep
   end.
 
-Theorem status_is_printed m cfg host content fs out rows :
-  report_main m cfg host (Some content) fs = (0, out) -> parse_file content = Some rows ->
+Theorem status_is_printed w m cfg host content fs out rows :
+  report_main_with w m cfg host (Some content) fs = (0, out) -> parse_file content = Some rows ->
   exists rep post,
     rp_status rep = report_status m (map view rows) /\
     out = spec_sanitize (s_subject ++ subject_text host rep ++ [10; 10] ++
                          s_stats ++ [10] ++ s_status ++ rp_status rep ++ [10]) ++ post /\
     exists pre, subject_text host rep = pre ++ rp_status rep.
 Proof.
-  intros H Hp. destruct (report_main_ok _ _ _ _ _ _ H) as [rows' [rep [Hp' [Hs ->]]]].
-  rewrite Hp in Hp'. injection Hp' as <-. destruct (report_fields _ _ _ _ _ Hs) as [Hst _].
+  intros H Hp. destruct (report_main_ok _ _ _ _ _ _ _ H) as [rows' [rep [Hp' [Hs ->]]]].
+  rewrite Hp in Hp'. injection Hp' as <-. destruct (report_fields _ _ _ _ _ _ Hs) as [Hst _].
   exists rep. eexists. split; [exact Hst|]. split.
   - unfold render, render_raw, render_subject, subject_text. rewrite <- sanitize_spec.
     repeat rewrite <- app_assoc. repeat rewrite sanitize_app. repeat rewrite <- app_assoc. reflexivity.
   - unfold subject_text. destruct (rp_subject rep); eexists; repeat rewrite app_assoc; reflexivity.
 Qed.
 
-(* ---- the caveat: total silence --------------------------------------------------------------------------------- *)
+(* ---- no report at all: only outside what the orchestrator leaves behind ---------------------------------------- *)
 
 Theorem report_main_silent m cfg host content rows fs :
+  cvs_guard m fs ->
   parse_file content = Some rows -> spec_error m cfg fs (map view rows) = true ->
-  report_main m cfg host (Some content) fs = (1, []).
+  report_main_with fixed_sw m cfg host (Some content) fs = (1, []).
 Proof.
-  intros Hp He. unfold report_main, report_struct. rewrite Hp.
-  apply report_error_iff in He. rewrite He. reflexivity.
+  intros Hg Hp He. unfold report_main_with, report_struct_with. rewrite Hp.
+  apply (report_error_iff _ _ _ _ Hg) in He. rewrite He. reflexivity.
 Qed.
 
-(* full statement "every failing row of every step file has a section in some produced report":
-       forall m cfg fs rows r, In r rows -> failing r = true -> exists rep, report_struct_rows m cfg rows fs = ROk rep
-   is refuted: *)
+(* what [spec_error] can be: each alternative is named (ReportSpec.v) and argued to be outside the step files and
+   directories the orchestrator and its scripts leave behind.  A log that DOES NOT EXIST is not among them. *)
+Lemma spec_body_err_outside m cfg fs r :
+  spec_body m cfg fs r = RErr ->
+  names_unreadable m fs r = true \/ dpb_without_diff m fs r = true \/ regress_without_log_name m r = true.
+Proof.
+  assert (Hcv : forall m', spec_cvs m' fs = RErr -> cvs_unreadable fs (spec_cvs_names m') = true).
+  { intros m'. unfold spec_cvs. destruct (cvs_unreadable fs (spec_cvs_names m')); [reflexivity|discriminate]. }
+  assert (Hlog : forall l, log_content fs l = RErr -> is_unreadable (f_log fs l) = true).
+  { intros l. unfold log_content. destruct (f_log fs l); try discriminate. reflexivity. }
+  assert (Hgen : spec_generic_body m fs r = RErr -> names_unreadable m fs r = true).
+  { unfold spec_generic_body, names_unreadable. destruct (beq (r_name r) name_cvs).
+    - intros H. rewrite (Hcv m H). rewrite orb_true_r. reflexivity.
+    - destruct (r_log r) as [|x l] eqn:El; [discriminate|].
+      destruct (log_content fs (x :: l)) eqn:Ec; [discriminate|]. intros _. rewrite (Hlog _ Ec). reflexivity. }
+  unfold spec_body. destruct m.
+  - intros H. left. now apply Hgen.
+  - intros H. left. now apply Hgen.
+  - destruct (beq (r_name r) name_cvs) eqn:En.
+    + intros H. left. unfold names_unreadable. rewrite (Hcv Ports H). rewrite orb_true_r. reflexivity.
+    + destruct (beq (r_name r) name_dpb && (r_exit r =? 0)%Z) eqn:Ed.
+      * destruct (f_tmp fs packages_diff) eqn:Ef; intros H; try discriminate H.
+        -- right. left. unfold dpb_without_diff. rewrite Ed, Ef. reflexivity.
+        -- left. unfold names_unreadable. rewrite Ef. cbn [is_unreadable]. apply orb_true_r.
+      * intros H. left. now apply Hgen.
+  - destruct (r_log r) as [|x l] eqn:El.
+    + intros _. right. right. unfold regress_without_log_name. rewrite El. reflexivity.
+    + destruct (log_content fs (x :: l)) as [c|] eqn:Ec.
+      * destruct (nonnil _); [discriminate|]. intros H. left. now apply Hgen.
+      * intros _. left. unfold names_unreadable. rewrite El. cbn [nonnil]. rewrite (Hlog _ Ec). reflexivity.
+  - destruct (r_log r) as [|x l] eqn:El.
+    + intros H. left. now apply Hgen.
+    + destruct (log_content fs (x :: l)) as [c|] eqn:Ec; [discriminate|].
+      intros _. left. unfold names_unreadable. rewrite El. cbn [nonnil]. rewrite (Hlog _ Ec). reflexivity.
+Qed.
+
+Theorem error_only_outside m cfg fs rows :
+  spec_error m cfg fs rows = true ->
+  c_running cfg = false \/ f_comment fs = FUnreadable \/
+  exists r, In r rows /\ nonskipped r = true /\
+    (names_unreadable m fs r = true \/ dpb_without_diff m fs r = true \/ regress_without_log_name m r = true).
+Proof.
+  unfold spec_error. intros H. apply orb_true_iff in H. destruct H as [H|H].
+  - apply orb_true_iff in H. destruct H as [H|H].
+    + left. now apply negb_true_iff in H.
+    + right. left. destruct (f_comment fs); try discriminate H. reflexivity.
+  - right. right. apply existsb_exists in H. destruct H as [r [Hin Hr]]. exists r. split; [exact Hin|].
+    unfold row_error in Hr. apply andb_true_iff in Hr. destruct Hr as [Hn Hr]. split; [exact Hn|].
+    apply orb_true_iff in Hr. destruct Hr as [Hr|Hr].
+    + right. right. unfold candidate_without_log in Hr. unfold regress_without_log_name.
+      destruct m; try discriminate Hr. apply andb_true_iff in Hr. tauto.
+    + apply andb_true_iff in Hr. destruct Hr as [_ Hr].
+      destruct (spec_body m cfg fs r) eqn:Eb; [discriminate Hr|]. exact (spec_body_err_outside m cfg fs r Eb).
+Qed.
+
+(* full statement "every failing row of every step file has a section in the report":
+       forall m cfg fs rows r, In r rows -> failing r = true -> exists rep, report_struct_rows m cfg rows fs = ROk rep /\ ...
+   Witnesses of what is left outside it: *)
 Definition silent_row : srow := mksrow [107] 2 7 0 [107; 46; 108; 111; 103] 3 0.          (* k fails, log k.log *)
-Definition silent_files : files :=
-  mkfiles (fun _ => None) (fun _ => None) FAbsent None None None None (fun _ _ => None).
+Definition unreadable_files : files :=
+  mkfiles (fun _ => FUnreadable) (fun _ => FAbsent) FAbsent None None None None (fun _ _ => None).
+Definition absent_files : files :=
+  mkfiles (fun _ => FAbsent) (fun _ => FAbsent) FAbsent None None None None (fun _ _ => None).
 Definition silent_dpb : srow := mksrow name_dpb 0 9 0 [100] 1 0.                        (* dpb passes *)
 Definition silent_cvs : srow := mksrow name_cvs 0 3 0 [99] 1 0.                          (* cvs passes *)
 Definition readable_files : files :=
-  mkfiles (fun _ => Some [111; 10]) (fun _ => None) FAbsent None None None None (fun _ _ => None).
+  mkfiles (fun _ => FData [111; 10]) (fun _ => FAbsent) FAbsent None None None None (fun _ _ => None).
 
-(* (i) the log of the failing step itself cannot be read *)
+(* (i) the log of the failing step is there but cannot be read (a directory in its place): still exit 1, nothing printed *)
 Theorem never_hidden_refuted_own_log :
   In silent_row [silent_row] /\ failing silent_row = true /\
-  c_running d14_cfg = true /\ f_comment silent_files = FAbsent /\
-  report_struct_rows Robsd d14_cfg [silent_row] silent_files = RErr.
+  c_running d14_cfg = true /\ f_comment unreadable_files = FAbsent /\
+  names_unreadable Robsd unreadable_files silent_row = true /\
+  report_struct_rows_with fixed_sw Robsd d14_cfg [silent_row] unreadable_files = RErr.
 Proof. repeat split; try reflexivity. now left. Qed.
 
-(* (ii) the failing step's log is fine; a PASSING step that is always listed (dpb in robsd-ports mode, whose
-   packages.diff does not exist) cannot be rendered, and the failure goes unreported with it *)
+(* (ii) the failing step's log is fine; a PASSING dpb step whose packages.diff does not exist cannot be rendered, and
+   the failure goes unreported with it *)
 Theorem never_hidden_refuted_other_row :
   failing silent_row = true /\ failing silent_dpb = false /\
-  f_log readable_files (r_log silent_row) = Some [111; 10] /\
-  report_struct_rows Ports d14_cfg [silent_dpb; silent_row] readable_files = RErr /\
-  (exists rep, report_struct_rows Ports d14_cfg [silent_row] readable_files = ROk rep).
+  f_log readable_files (r_log silent_row) = FData [111; 10] /\
+  dpb_without_diff Ports readable_files silent_dpb = true /\
+  report_struct_rows_with fixed_sw Ports d14_cfg [silent_dpb; silent_row] readable_files = RErr /\
+  (exists rep, report_struct_rows_with fixed_sw Ports d14_cfg [silent_row] readable_files = ROk rep).
 Proof. repeat split; try reflexivity. eexists. vm_compute. reflexivity. Qed.
+
+(* D24.  An invocation killed between the in-flight record of step_exec_job and tee's open(2) leaves a row (exit -1)
+   whose log does not exist.  Before the repair robsd-report printed nothing at all for such a directory - the step
+   that had really failed earlier (p, exit 3, log present) went unreported too - although nothing of [spec_error]
+   holds; with the repair both rows have their section and the in-flight one has the empty excerpt. *)
+Definition d24_failed : srow := mksrow [112] 3 0 0 [112; 46; 108; 111; 103] 1 0.       (* p, exit 3, log p.log *)
+Definition d24_inflight : srow := mksrow [99] (-1) (-1) 0 [99; 46; 108; 111; 103] 2 0.  (* c, exit -1, log c.log *)
+Definition d24_files : files :=
+  mkfiles (fun l => if beq l [112; 46; 108; 111; 103] then FData [111; 10] else FAbsent)
+          (fun _ => FAbsent) FAbsent None None None None (fun _ _ => None).
+
+Definition d24_rows : list srow := [d24_failed; d24_inflight].
+
+Theorem missing_log_refuted :
+  failing d24_failed = true /\ failing d24_inflight = true /\
+  f_log d24_files (r_log d24_inflight) = FAbsent /\
+  forall m, spec_error m d14_cfg d24_files d24_rows = false /\
+            cvs_guard m d24_files /\
+            report_struct_rows_with sw_before_d24 m d14_cfg d24_rows d24_files = RErr /\
+            spec_body m d14_cfg d24_files d24_inflight = ROk [10] /\
+            step_log_with sw_before_d24 m d14_cfg d24_files d24_inflight = RErr.
+Proof.
+  repeat split; try reflexivity; destruct m; try reflexivity; right; reflexivity.
+Qed.
+
+(* the same directory with the repair: both sections, the in-flight one with the empty excerpt; status counts both
+   (canvas) / names the last one (robsd) *)
+Theorem missing_log_holds_when_fixed :
+  (exists rep, report_struct_rows_with fixed_sw Canvas d14_cfg d24_rows d24_files = ROk rep /\
+     rp_status rep = count_text 2 /\
+     map (fun s => (s_name s, s_exit s, s_body s)) (rp_sections rep) =
+       [(r_name d24_failed, 3%Z, [10; 111; 10]); (r_name d24_inflight, (-1)%Z, [10])]) /\
+  (forall m, exists rep, report_struct_rows_with fixed_sw m d14_cfg d24_rows d24_files = ROk rep /\
+     map s_name (rp_sections rep) = [r_name d24_failed; r_name d24_inflight]).
+Proof.
+  split.
+  - eexists. split; [vm_compute; reflexivity|]. split; reflexivity.
+  - intros m. destruct m; eexists; (split; [vm_compute; reflexivity|reflexivity]).
+Qed.
+
+(* (the general form - a log that does not exist never makes the report fail, in any mode, for any rows - is
+   [never_hidden] below) *)
+
+(* D25.  robsd-regress: the section of a failed cvs step.  Before the regress rows were added to the table of
+   report_cvs_log the body was the single newline the function starts with, although robsd-cvs.sh had collected the
+   two src logs; the specification has them. *)
+Definition d25_cvs : srow := mksrow name_cvs 1 5 0 [99; 46; 108; 111; 103] 2 0.
+Definition d25_files : files :=
+  mkfiles (fun _ => FData [101; 114; 114; 10])
+          (fun n => if beq n [99; 118; 115; 45; 115; 114; 99; 45; 117; 112; 46; 108; 111; 103] then FData [80; 32; 97; 10]
+                    else if beq n [99; 118; 115; 45; 115; 114; 99; 45; 99; 105; 46; 108; 111; 103] then FData [99; 49; 10]
+                    else FAbsent)
+          FAbsent None None None None (fun _ _ => None).
+
+Theorem regress_cvs_refuted :
+  failing d25_cvs = true /\
+  step_log_with sw_before_d25 Regress d14_cfg d25_files d25_cvs = ROk [10] /\
+  spec_body Regress d14_cfg d25_files d25_cvs = ROk [10; 80; 32; 97; 10; 10; 99; 49; 10] /\
+  step_log_with fixed_sw Regress d14_cfg d25_files d25_cvs = spec_body Regress d14_cfg d25_files d25_cvs.
+Proof. repeat split. Qed.
+
+(* for every other mode the two tables give the same report *)
+Theorem before_d25_same_outside_regress m cfg fs r :
+  m <> Regress -> step_log_with sw_before_d25 m cfg fs r = step_log_with fixed_sw m cfg fs r.
+Proof. intros H. destruct m; try reflexivity. now elim H. Qed.
 
 (* D18, repaired in /repo da850b3: cvs logs that were never written (robsd-ports without cvs-root; a first
    checkout) no longer take the report down - the passing cvs step gets its section without change logs and the
-   failing step after it is reported.  Stops compiling if the test in report_cvs_log goes back. *)
-Theorem ports_cvs_logs_missing_holds_now :
-  cvs_missing_skipped = true /\
-  exists rep, report_struct_rows Ports d14_cfg [silent_cvs; silent_row] readable_files = ROk rep /\
+   failing step after it is reported. *)
+Theorem ports_cvs_logs_missing_holds_when_fixed :
+  exists rep, report_struct_rows_with fixed_sw Ports d14_cfg [silent_cvs; silent_row] readable_files = ROk rep /\
     rp_status rep = str_failed_in ++ r_name silent_row /\
     map s_name (rp_sections rep) = [name_cvs; r_name silent_row] /\
     map s_body (rp_sections rep) = [[10]; [10; 111; 10]].
-Proof. split; [reflexivity|]. eexists. split; [vm_compute; reflexivity|]. repeat split. Qed.
+Proof. eexists. split; [vm_compute; reflexivity|]. repeat split. Qed.
+
+Theorem ports_cvs_logs_missing_refuted :
+  report_struct_rows_with sw_before_d18 Ports d14_cfg [silent_cvs; silent_row] readable_files = RErr /\
+  spec_error Ports d14_cfg readable_files [silent_cvs; silent_row] = false.
+Proof. split; reflexivity. Qed.
 
 (* the exact guard and the dichotomy: either no report at all (exit 1, empty output) - exactly under
    [spec_error] - or every failing row has its section *)
 Theorem never_hidden_or_silent m cfg rows fs :
-  (spec_error m cfg fs rows = true /\ report_struct_rows m cfg rows fs = RErr) \/
+  cvs_guard m fs ->
+  (spec_error m cfg fs rows = true /\ report_struct_rows_with fixed_sw m cfg rows fs = RErr) \/
   (spec_error m cfg fs rows = false /\
-   exists rep, report_struct_rows m cfg rows fs = ROk rep /\
+   exists rep, report_struct_rows_with fixed_sw m cfg rows fs = ROk rep /\
      forall a r b, rows = a ++ r :: b -> failing r = true ->
        exists bd sa sb, spec_body m cfg fs r = ROk bd /\ rp_sections rep = sa ++ section_of r bd :: sb /\
                         List.length sa = List.length (filter (spec_shown m cfg fs) a)).
 Proof.
-  destruct (spec_error m cfg fs rows) eqn:E.
+  intros Hg. destruct (spec_error m cfg fs rows) eqn:E.
   - left. split; [reflexivity|]. now apply report_error_iff.
-  - right. split; [reflexivity|]. destruct (report_struct_rows m cfg rows fs) as [rep|] eqn:Er.
+  - right. split; [reflexivity|]. destruct (report_struct_rows_with fixed_sw m cfg rows fs) as [rep|] eqn:Er.
     + exists rep. split; [reflexivity|]. intros a r b -> Hf.
-      destruct (failure_has_section _ _ _ _ _ _ _ Er Hf) as [bd [Hb Hs]].
+      destruct (failure_has_section _ _ _ _ _ _ _ Hg Er Hf) as [bd [Hb Hs]].
       eexists bd, _, _. split; [exact Hb|]. split; [exact Hs|]. now rewrite map_length.
-    + apply report_error_iff in Er. congruence.
+    + apply (report_error_iff _ _ _ _ Hg) in Er. congruence.
+Qed.
+
+(* NEVER HIDDEN, without a silent alternative.  Inside the property's quantifier - the lock file of the running
+   invocation is there, no file is a directory or otherwise unreadable, robsd-ports-dpb.sh has written packages.diff
+   before it exited 0, the rows of a regress invocation carry their log names - a report IS produced, whatever logs
+   exist or do not exist, and every failing row has its section with the specified body at its place *)
+Definition inside (m : mode) (cfg : cfgview) (fs : files) (rows : list srow) : Prop :=
+  c_running cfg = true /\ f_comment fs <> FUnreadable /\
+  forall r, In r rows -> nonskipped r = true ->
+    names_unreadable m fs r = false /\ dpb_without_diff m fs r = false /\ regress_without_log_name m r = false.
+
+Lemma inside_no_error m cfg fs rows : inside m cfg fs rows -> spec_error m cfg fs rows = false.
+Proof.
+  intros [Hr [Hc Hrows]]. destruct (spec_error m cfg fs rows) eqn:E; [|reflexivity]. exfalso.
+  destruct (error_only_outside _ _ _ _ E) as [H|[H|[r [Hin [Hn H]]]]]; [congruence|contradiction|].
+  destruct (Hrows r Hin Hn) as [H1 [H2 H3]]. destruct H as [H|[H|H]]; congruence.
+Qed.
+
+Theorem never_hidden m cfg fs rows :
+  inside m cfg fs rows -> cvs_guard m fs ->
+  exists rep, report_struct_rows_with fixed_sw m cfg rows fs = ROk rep /\
+    forall a r b, rows = a ++ r :: b -> failing r = true ->
+      exists bd sa sb, spec_body m cfg fs r = ROk bd /\ rp_sections rep = sa ++ section_of r bd :: sb /\
+                       List.length sa = List.length (filter (spec_shown m cfg fs) a).
+Proof.
+  intros Hin Hg. destruct (never_hidden_or_silent m cfg rows fs Hg) as [[E _]|[_ H]]; [|exact H].
+  rewrite (inside_no_error _ _ _ _ Hin) in E. discriminate E.
+Qed.
+
+(* when no row has a failure the cvs guard follows from [inside] whenever a cvs row is listed; stated for the rows
+   that matter: a file system without unreadable files meets both *)
+Definition all_readable (fs : files) : Prop :=
+  (forall l, f_log fs l <> FUnreadable) /\ (forall n, f_tmp fs n <> FUnreadable) /\ f_comment fs <> FUnreadable.
+
+Lemma cvs_readable_guard m fs : (forall n, f_tmp fs n <> FUnreadable) -> cvs_guard m fs.
+Proof.
+  intros H. right. unfold cvs_unreadable. destruct (existsb _ _) eqn:E; [|reflexivity].
+  apply existsb_exists in E. destruct E as [n [_ Hn]]. specialize (H n). destruct (f_tmp fs n); try discriminate Hn. congruence.
 Qed.
 
 (* ---- every oracle of the harness accepts the model -------------------------------------------------------------- *)
@@ -215,52 +384,86 @@ Proof.
   - now apply IH.
 Qed.
 
-Lemma run_fixture_cases x :
+Lemma run_fixture_cases w x :
   match rows_of x with
-  | None => run_fixture x = (1, [])
+  | None => run_fixture_with w x = (1, [])
   | Some rows =>
-      match report_struct_rows (x_mode x) (cfg_of x) rows (files_of x) with
-      | RErr => run_fixture x = (1, [])
-      | ROk rep => run_fixture x = (0, render (x_host x) rep)
+      match report_struct_rows_with w (x_mode x) (cfg_of x) rows (files_of x) with
+      | RErr => run_fixture_with w x = (1, [])
+      | ROk rep => run_fixture_with w x = (0, render (x_host x) rep)
       end
   end.
 Proof.
-  unfold run_fixture, rows_of, report_main, report_struct. destruct (x_step x) as [c|]; [|reflexivity].
+  unfold run_fixture_with, rows_of, report_main_with, report_struct_with. destruct (x_step x) as [c|]; [|reflexivity].
   destruct (parse_file c) as [rows|]; [|reflexivity].
-  destruct (report_struct_rows _ _ (map view rows) _) as [rep|]; [|reflexivity].
+  destruct (report_struct_rows_with w _ _ (map view rows) _) as [rep|]; [|reflexivity].
   destruct (render_sane (x_host x) rep) as [_ [_ Hc]]. now rewrite Hc.
 Qed.
 
 Theorem model_passes_all_oracles x :
-  spec_ok_exit x (fst (run_fixture x)) = true /\
-  spec_ok_sane (snd (run_fixture x)) = true /\
+  cvs_guard (x_mode x) (files_of x) ->
+  spec_ok_exit x (fst (run_fixture_with fixed_sw x)) = true /\
+  spec_ok_sane (snd (run_fixture_with fixed_sw x)) = true /\
   forall rows rep, rows_of x = Some rows ->
-    report_struct_rows (x_mode x) (cfg_of x) rows (files_of x) = ROk rep ->
-    run_fixture x = (0, render (x_host x) rep) /\
+    report_struct_rows_with fixed_sw (x_mode x) (cfg_of x) rows (files_of x) = ROk rep ->
+    run_fixture_with fixed_sw x = (0, render (x_host x) rep) /\
     spec_ok_sections x (map (fun s => (s_name s, (s_exit s, s_log s))) (rp_sections rep)) = true /\
     (forall k s, nth_error (rp_sections rep) k = Some s -> spec_ok_body x k (sanitize (s_body s)) = true) /\
     (status_hyps (x_mode x) rows = true -> spec_ok_status x (subject_text (x_host x) rep) (rp_status rep) = true).
 Proof.
-  pose proof (run_fixture_cases x) as Hrun. split; [|split].
+  intros Hg. pose proof (run_fixture_cases fixed_sw x) as Hrun. split; [|split].
   - unfold spec_ok_exit. destruct (rows_of x) as [rows|]; [|now rewrite Hrun].
-    destruct (report_struct_rows _ _ rows _) as [rep|] eqn:E; rewrite Hrun; cbn [fst].
-    + destruct (spec_error _ _ _ rows) eqn:Ee; [|reflexivity]. apply report_error_iff in Ee. congruence.
-    + apply report_error_iff in E. now rewrite E.
+    destruct (report_struct_rows_with fixed_sw _ _ rows _) as [rep|] eqn:E; rewrite Hrun; cbn [fst].
+    + destruct (spec_error _ _ _ rows) eqn:Ee; [|reflexivity]. apply (report_error_iff _ _ _ _ Hg) in Ee. congruence.
+    + apply (report_error_iff _ _ _ _ Hg) in E. now rewrite E.
   - destruct (rows_of x) as [rows|]; [|now rewrite Hrun].
-    destruct (report_struct_rows _ _ rows _) as [rep|]; rewrite Hrun; [|reflexivity]. cbn [snd].
+    destruct (report_struct_rows_with fixed_sw _ _ rows _) as [rep|]; rewrite Hrun; [|reflexivity]. cbn [snd].
     apply sane_iff. destruct (render_sane (x_host x) rep) as [H0 [H13 _]]. tauto.
   - intros rows rep Hr H. rewrite Hr, H in Hrun. split; [exact Hrun|].
-    destruct (model_passes_oracles x rows rep Hr H) as [Hsec [Hst _]]. split; [exact Hsec|]. split.
+    destruct (model_passes_oracles x rows rep Hg Hr H) as [Hsec [Hst _]]. split; [exact Hsec|]. split.
     + intros k s Hk. apply (spec_ok_body_iff x rows k _ Hr).
-      destruct (sections_exact _ _ _ _ _ H) as [Hs Hb]. rewrite Hs in Hk.
+      destruct (sections_exact _ _ _ _ _ Hg H) as [Hs Hb]. rewrite Hs in Hk.
       apply map_nth_error_inv in Hk. destruct Hk as [r [Hnth <-]].
-      exists r, (body_or_nil (x_mode x) (cfg_of x) (files_of x) r). split; [exact Hnth|]. split.
-      * rewrite <- step_log_is_spec. apply Hb. eapply nth_error_In; eauto.
+      exists r, (body_or_nil_with fixed_sw (x_mode x) (cfg_of x) (files_of x) r). split; [exact Hnth|]. split.
+      * rewrite <- (step_log_fixed _ _ _ r Hg). apply Hb. eapply nth_error_In; eauto.
       * cbn [s_body section_of]. apply sanitize_spec.
     + intros Hh. specialize (Hst Hh). apply beq_eq in Hst. unfold spec_ok_status. rewrite Hr, Hh.
       rewrite Hst, beq_refl. cbn [andb].
-      destruct (report_fields _ _ _ _ _ H) as [_ [Hm Hsub]]. unfold subject_text. rewrite Hsub, Hm, <- Hst.
+      destruct (report_fields _ _ _ _ _ _ H) as [_ [Hm Hsub]]. unfold subject_text. rewrite Hsub, Hm, <- Hst.
       unfold subject_of, cross_prefix. change (f_target (files_of x)) with (x_target x).
       destruct (x_mode x); try destruct (x_target x) as [t|]; apply orb_true_iff;
         first [ right; solve [suffix_tac] | left; solve [suffix_tac] ].
 Qed.
+
+(* ---- a log that does not exist / a cvs log that cannot be read ---------------------------------------------------- *)
+
+Theorem absent_log_is_empty_excerpt m cfg fs r x l :
+  r_log r = x :: l -> f_log fs (r_log r) = FAbsent -> beq (r_name r) name_cvs = false ->
+  (m = Ports -> beq (r_name r) name_dpb && (r_exit r =? 0)%Z = false) ->
+  spec_body m cfg fs r = ROk [10] /\ step_log_with fixed_sw m cfg fs r = ROk [10].
+Proof.
+  intros El Ea En Hd.
+  assert (Hs : spec_body m cfg fs r = ROk [10]).
+  { assert (Hgen : spec_generic_body m fs r = ROk [10]).
+    { unfold spec_generic_body. rewrite En, El. unfold log_content. rewrite <- El, Ea. reflexivity. }
+    unfold spec_body. destruct m; try exact Hgen.
+    - rewrite En, (Hd eq_refl). exact Hgen.
+    - rewrite El. unfold log_content. rewrite <- El, Ea. rewrite file_blocks_nil. exact Hgen.
+    - rewrite El. unfold log_content. rewrite <- El, Ea. reflexivity. }
+  split; [exact Hs|].
+  assert (Hgen : generic_step_log fixed_sw m fs r = ROk [10]).
+  { unfold generic_step_log. rewrite En, El. rewrite <- El, Ea. reflexivity. }
+  unfold step_log_with. destruct m; try exact Hgen.
+  - unfold ports_step_log. rewrite En, (Hd eq_refl). exact Hgen.
+  - unfold regress_step_log. rewrite El. rewrite <- El, Ea. exact Hgen.
+  - unfold canvas_step_log. rewrite El. rewrite <- El, Ea. reflexivity.
+Qed.
+
+Definition unreadable_cvs_files : files :=
+  mkfiles (fun _ => FData [111; 10]) (fun _ => FUnreadable) FAbsent None None None None (fun _ _ => None).
+Definition failing_cvs : srow := mksrow name_cvs 1 5 0 [99] 2 0.
+
+Theorem unreadable_cvs_log_not_an_error :
+  exists fs r, cvs_unreadable fs (spec_cvs_names Robsd) = true /\ failing r = true /\
+    spec_body Robsd d14_cfg fs r = RErr /\ step_log_with fixed_sw Robsd d14_cfg fs r = ROk [10].
+Proof. exists unreadable_cvs_files, failing_cvs. repeat split. Qed.
